@@ -342,7 +342,12 @@ func (db *DB) exist(o Object) (ok bool, err error) {
 	if os.IsNotExist(err) {
 		return false, nil
 	}
-	return stat.Mode().IsRegular() && err == nil, nil
+	// stat is nil whatever the error is, the error must be reported as
+	// we don't know whether the object exists
+	if err != nil {
+		return false, err
+	}
+	return stat.Mode().IsRegular(), nil
 }
 
 func (db *DB) writeObject(o Object) (err error) {
